@@ -285,7 +285,7 @@ Proof. exists [0; 1]%nat. vm_compute. reflexivity. Qed.
 
 (* ------------------------------------------------------------------------------------------ *)
 (* family shut: a shutdown call against an operation parked at a hook point, in a child process  *)
-Inductive racer := RWrite | RSubdoc | RFeedStart | RView | RTimer | RClose.
+Inductive racer := RWrite | RSubdoc | RFeedStart | RView | RTimer | RClose | RRearm (* two pending expiry deadlines, no parking *).
 Inductive shutdown := SCad | SCloseLast | SCloseOne | SDrop.
 Record shut_case := mkShutCase { sc_mem : bool; sc_racer : racer; sc_point : string; sc_shutdown : shutdown }.
 Inductive outcome := OOk | OPanic | ODeadlock | OLeak | OLockLeft | ORacerLost.
